@@ -720,3 +720,75 @@ def engine_vs_rational_oracle(rep):
             for j in range(len(q)):
                 if not rep.expect(abs(float(beats[i] - beats[j]) - float(q[i] - q[j])) <= 1e-7, "cumulative_beats_difference", case, f"{i},{j}: {beats[i]-beats[j]} want {q[i]-q[j]}"):
                     break
+
+
+@bounded("C10", note="timing maps built from OFFSET-form tempo changes in any list order (from_bpm_changes_offset, BpmList.to_timing_map on unsorted rows), Snapper divisions in any order, queries after in-place edits of the tempo list")
+def engine_other_constructions(rep):
+    from reamber.algorithms.timing.TimingMap import TimingMap
+    from reamber.algorithms.timing.utils.BpmChangeOffset import BpmChangeOffset
+    from reamber.algorithms.timing.utils.Snapper import Snapper
+    from reamber.algorithms.timing.utils.snap import Snap
+    from reamber.base.Bpm import Bpm
+    from reamber.base.lists.BpmList import BpmList
+
+    rng = rep.rng
+    N = rep.n(150, 3000)
+    rep.bound = f"{N} random tempo lists (1..5 changes on measure lines, metronome 4, shuffled row order) x 3 constructions; Snapper divisions (1,2,4,8,16) in 4 orders; one in-place bpm edit per list"
+    rep.rule = "a case is one tempo list with its queries; non-trivial with >= 2 changes"
+    for _ in range(N):
+        if rep.out_of_time(25, 300):
+            break
+        n = rng.randrange(1, 6)
+        measures = [0] + sorted(rng.sample(range(1, 30), n - 1))
+        bpms = [float(rng.choice([60, 90, 120, 150, 200])) for _ in range(n)]
+        init = float(rng.choice([0, -1234.5, 250]))
+        changes = [(Fraction(4 * m), Fraction(repr(b))) for m, b in zip(measures, bpms)]
+        times = [float(_oracle_ms(changes, Fraction(repr(init)), Fraction(4 * m))) for m in measures]
+        order = list(range(n))
+        rng.shuffle(order)
+        q = [Fraction(rng.randrange(0, 35 * 4 * 48), 48) for _ in range(rng.randrange(1, 6))]
+        want = [float(_oracle_ms(changes, Fraction(repr(init)), x)) for x in q]
+        snaps = [Snap(int(x // 4), x % 4, 4) for x in q]
+        case = dict(init=init, measures=measures, bpms=bpms, order=order, queries=[str(x) for x in q])
+        rep.case(case, nontrivial=n >= 2)
+
+        def close(got, what, how):
+            for i in range(len(q)):
+                if abs(float(got[i]) - want[i]) > 1e-6:
+                    rep.fail(what, case, f"{how}: query {i} at beat {q[i]}: got {got[i]} want {want[i]}")
+                    return False
+            return True
+
+        # (a) offset-form changes handed over in any order
+        tm = TimingMap.from_bpm_changes_offset([BpmChangeOffset(bpms[i], 4, times[i]) for i in order])
+        close(tm.offsets(snaps), "offset_form_changes_in_any_order", "from_bpm_changes_offset")
+        back = tm.snaps(want, Snapper())
+        for i in range(len(q)):
+            if abs(float(back[i].measure * 4 + back[i].beat - q[i])) > 1e-7:
+                rep.fail("offset_form_changes_in_any_order", case, f"snaps(): time {want[i]} -> beat {back[i].measure * 4 + back[i].beat}, want {q[i]}")
+                break
+        # (b) an unsorted BpmList
+        bl = BpmList([Bpm(offset=times[i], bpm=bpms[i], metronome=4) for i in order])
+        close(bl.to_timing_map().offsets(snaps), "bpm_list_rows_in_any_order", "BpmList.to_timing_map")
+        # (c) queries follow in-place edits of the tempo list (no stale state between queries)
+        tm2 = TimingMap.from_bpm_changes_offset([BpmChangeOffset(bpms[i], 4, times[i]) for i in range(n)])
+        tm2.offsets(snaps)
+        k = rng.randrange(n)
+        tm2.bpm_changes_offset[k].bpm = bpms[k] * 2
+        fresh = TimingMap.from_bpm_changes_offset([BpmChangeOffset(bpms[i] * (2 if i == k else 1), 4, times[i]) for i in range(n)])
+        a, b = tm2.offsets(snaps), fresh.offsets(snaps)
+        if any(abs(float(x) - float(y)) > 1e-6 for x, y in zip(a, b)):
+            rep.fail("queries_follow_in_place_edits", case, f"after bpm[{k}] *= 2 in place: {list(a)} vs a map built from the edited list {list(b)}")
+        # (d) the order in which the allowed divisions are listed does not matter
+        x = Fraction(rng.randrange(0, 3 * 160), 160)
+        ref = Snapper(divisions=(1, 2, 4, 8, 16)).snap(x)
+        for divs in ((16, 8, 4, 2, 1), (4, 16, 1, 8, 2), (2, 1, 16, 4, 8)):
+            got = Snapper(divisions=divs).snap(x)
+            if got != ref:
+                rep.fail("snapper_divisions_in_any_order", dict(case, x=str(x), divisions=list(divs)), f"snap({x}) = {got} with divisions {divs}, {ref} with (1,2,4,8,16)")
+                break
+        grid16 = sorted({Fraction(a_, d) for d in range(1, 17) for a_ in range(0, d + 1)})
+        fr = x % 1
+        best = min(abs(g - fr) for g in grid16)
+        if abs((ref % 1 if ref % 1 != 0 or fr < Fraction(1, 2) else 1) - fr) > best + Fraction(1, 10**9):
+            rep.fail("snapper_nearest_on_its_own_grid", dict(case, x=str(x)), f"snap({x}) = {ref}: not a nearest fraction with denominator <= 16")
